@@ -108,7 +108,7 @@ class C14(PropBase):
                 if texts_seen and "other_carrier_first" in sw and rng.random() < 0.3:
                     s = rng.choice(texts_seen)
                 texts_seen.append(s)
-                order = list(hist.CARRIERS)
+                order = list(hist.CARRIERS) + list(hist.WINDOW_CARRIERS)
                 rng.shuffle(order)
                 steps.append({"op": "carriers", "t": t, "s": s, "order": order, "mod": mod})
                 if "exhaust_scan" in sw and rng.random() < 0.4:
@@ -121,11 +121,11 @@ class C14(PropBase):
                 if jt is None or not _is_composite(t, lk):
                     continue
                 steps.append({"op": "text_vs_value", "t": t, "w": copy.deepcopy(w), "render": rng.choice(["json", "json", "repr"]),
-                              "carrier": rng.choice(hist.CARRIERS), "mod": mod})
+                              "carrier": rng.choice(hist.CARRIERS + hist.WINDOW_CARRIERS), "mod": mod})
             elif kind == "load":
                 src = rng.random()
                 s = jt if (src < 0.5 and jt is not None) else (rng.choice(MALFORMED) if src < 0.8 else gen.gen_str(rng))
-                steps.append({"op": "load", "s": s, "carrier": rng.choice(hist.CARRIERS + ("nontext",)), "fn": rng.choice(["load", "strload", "decode"])})
+                steps.append({"op": "load", "s": s, "carrier": rng.choice(hist.CARRIERS + hist.WINDOW_CARRIERS + ("nontext",)), "fn": rng.choice(["load", "strload", "decode"])})
             elif kind == "reuse":
                 if jt is None:
                     continue
